@@ -3,6 +3,7 @@ import GdModel.Driver.Conv
 import GdModel.Driver.Field
 import GdModel.Driver.Tok
 import GdModel.Driver.Disk
+import GdModel.Driver.Index
 open GdModel.Driver
 
 structure St where
@@ -31,6 +32,7 @@ def step (st : St) (line : String) : St × String :=
   | "spf" :: rest => (st, handleSpf st.db rest)
   | "bof" :: rest => (st, handleBof st.spec st.db rest)
   | "nframes" :: _ => (st, handleNframes st.db)
+  | "framenum" :: rest => (st, handleFramenum st.db rest)
   | "bytes" :: rest => (st, handleBytes st.db rest)
   | "baredecode" :: rest => (st, handleBareDecode rest)
   | "siedecode" :: rest => (st, handleSieDecode rest)
